@@ -224,7 +224,7 @@ def h06b(k, m, f_asc, s_asc, normalized=False):
 
 def configs(tier, seed):
     cfgs = []
-    ks = [2, 3, 4] if tier == 'quick' else [2, 3, 4, 5]
+    ks = [2, 3, 4] if tier == 'quick' else [2, 3, 4, 5, 6]
     for k in ks:
         for asc in (True, False):
             cfgs.append(Config('H06a integrate_subset k=%d %s' % (k, 'asc' if asc else 'desc'), h06a(k, asc), 1500))
